@@ -18172,6 +18172,54 @@ impl<SP: SignerProvider> FundedChannel<SP> {
 	}
 }
 
+#[cfg(feature = "verif_hooks")]
+impl<SP: SignerProvider> FundedChannel<SP> {
+	/// Verification hook (C01): the inputs of the send-side admission check (`send_htlc` ->
+	/// `get_available_balances`) as the channel computes them now. Read-only.
+	/// Returns `(get_next_commitment_value_to_self_msat(false), get_next_commitment_htlcs(false, None,
+	/// true) as (outbound, amount_msat) with the trailing holding-cell adds split off, number of
+	/// holding-cell adds, the seven `ChannelConstraints` fields in declaration order, the dust-exposure
+	/// limiting feerate, the dust-exposure limit, feerate_per_kw)`.
+	pub(crate) fn verif_send_check_inputs<F: FeeEstimator>(
+		&self, fee_estimator: &LowerBoundedFeeEstimator<F>,
+	) -> (u64, Vec<(bool, u64)>, usize, [u64; 7], Option<u32>, u64, u32) {
+		let value = self.context.get_next_commitment_value_to_self_msat(false, &self.funding);
+		let all = self.context.get_next_commitment_htlcs(false, None, true);
+		let holding = self
+			.context
+			.holding_cell_htlc_updates
+			.iter()
+			.filter(|u| matches!(u, HTLCUpdateAwaitingACK::AddHTLC { .. }))
+			.count();
+		let pending = all[..all.len() - holding.min(all.len())]
+			.iter()
+			.map(|h| (h.outbound, h.amount_msat))
+			.collect();
+		let c = self.context.get_channel_constraints(&self.funding);
+		let lim = self
+			.context
+			.get_dust_exposure_limiting_feerate(fee_estimator, self.funding.get_channel_type());
+		let max_dust = self.context.get_max_dust_htlc_exposure_msat(lim);
+		(
+			value,
+			pending,
+			holding,
+			[
+				c.holder_dust_limit_satoshis,
+				c.counterparty_selected_channel_reserve_satoshis,
+				c.counterparty_dust_limit_satoshis,
+				c.holder_selected_channel_reserve_satoshis,
+				c.counterparty_htlc_minimum_msat,
+				c.counterparty_max_htlc_value_in_flight_msat,
+				c.counterparty_max_accepted_htlcs,
+			],
+			lim,
+			max_dust,
+			self.context.feerate_per_kw,
+		)
+	}
+}
+
 #[cfg(test)]
 mod tests {
 	use crate::chain::chaininterface::LowerBoundedFeeEstimator;
